@@ -47,8 +47,14 @@ class Emb:
         if isinstance(x, (np.datetime64, np.timedelta64)):
             x = x.astype(np.int64) if not np.isnat(x) else I64MIN
         elif isinstance(x, (pd.Timestamp, pd.Timedelta)):
-            x = x.value if x is not pd.NaT else I64MIN
-            # pandas .value is ns; rescale to the dtype's unit
+            if x is pd.NaT:
+                x = I64MIN
+            else:
+                # pandas .value is ns whatever the unit: rescale to the embedding's unit (inexact -> junk)
+                per = {"ns": 1, "us": 10 ** 3, "ms": 10 ** 6, "s": 10 ** 9}[np.datetime_data(self.dtype)[0]] if self.kind in "mM" else 1
+                if x.value % per:
+                    return JUNK
+                x = x.value // per
         elif x is pd.NaT or x is None or x is pd.NA:
             return NULL
         if isinstance(x, (float, np.floating)):
@@ -105,6 +111,9 @@ EMB = {e.name: e for e in [
     Emb("i64", "int64"),
     Emb("i64big", "int64", base=BIG),
     Emb("i32", "int32"),
+    Emb("i32big", "int32", base=2 ** 30),        # two of them exceed the 32-bit range
+    Emb("i16", "int16"),
+    Emb("u32", "uint32", base=2 ** 31),
     Emb("i8", "int8"),
     Emb("u8", "uint8"),
     Emb("u64", "uint64"),
@@ -116,6 +125,8 @@ EMB = {e.name: e for e in [
     Emb("m8ns", "timedelta64[ns]", base=TBASE),
     Emb("m8ns0", "timedelta64[ns]", base=0),
     Emb("m8s", "timedelta64[s]", base=10 ** 9),
+    Emb("M8ms", "datetime64[ms]", base=10 ** 12),
+    Emb("m8us", "timedelta64[us]", base=10 ** 15),
 ]}
 
 
@@ -130,3 +141,57 @@ def to_rat(x, max_den=100000, tol=1e-12):
     if abs(float(f) - x) <= tol * max(1.0, abs(x)) and abs(f.numerator) < 2 ** 30:
         return [f.numerator, f.denominator]
     return [JUNK, 1]
+
+
+# ------------------------------------------------------------------ logical dtype descriptors (C12)
+def _np_desc(dt):
+    dt = np.dtype(dt)
+    k = dt.kind
+    if k in "mM":
+        return {"k": k, "w": 64, "unit": np.datetime_data(dt)[0], "tz": ""}
+    if k == "b":
+        return {"k": "b", "w": 8, "unit": "", "tz": ""}
+    if k in "iuf":
+        return {"k": k, "w": dt.itemsize * 8, "unit": "", "tz": ""}
+    return {"k": "O", "w": 0, "unit": "", "tz": ""}
+
+
+def _pa_desc(t):
+    import pyarrow as pa
+    if pa.types.is_timestamp(t):
+        return {"k": "M", "w": 64, "unit": t.unit, "tz": t.tz or ""}
+    if pa.types.is_duration(t):
+        return {"k": "m", "w": 64, "unit": t.unit, "tz": ""}
+    if pa.types.is_boolean(t):
+        return {"k": "b", "w": 8, "unit": "", "tz": ""}
+    if pa.types.is_integer(t):
+        return {"k": "i" if pa.types.is_signed_integer(t) else "u", "w": t.bit_width, "unit": "", "tz": ""}
+    if pa.types.is_floating(t):
+        return {"k": "f", "w": t.bit_width, "unit": "", "tz": ""}
+    return {"k": "O", "w": 0, "unit": "", "tz": ""}
+
+
+def dtdesc(obj):
+    """logical dtype [k, w, unit, tz] of a 1-D container or of the first column of a 2-D one."""
+    import polars as pl
+    import pyarrow as pa
+    if isinstance(obj, pd.DataFrame):
+        obj = obj.iloc[:, 0]
+    if isinstance(obj, pl.DataFrame):
+        obj = obj.to_series(0)
+    if isinstance(obj, (list, tuple)):
+        obj = obj[0]
+    if isinstance(obj, (pa.Array, pa.ChunkedArray)):
+        return _pa_desc(obj.type)
+    if isinstance(obj, pl.Series):
+        return _pa_desc(obj.to_arrow().type) if len(obj) or True else None
+    dt = getattr(obj, "dtype", None)
+    if isinstance(dt, np.dtype):
+        return _np_desc(dt)
+    if isinstance(dt, pd.DatetimeTZDtype):
+        return {"k": "M", "w": 64, "unit": dt.unit, "tz": str(dt.tz)}
+    if isinstance(dt, pd.ArrowDtype):
+        return _pa_desc(dt.pyarrow_dtype)
+    if dt is not None and hasattr(dt, "numpy_dtype"):          # pandas nullable extension dtypes
+        return _np_desc(dt.numpy_dtype)
+    return _np_desc(np.asarray(obj).dtype)
